@@ -130,6 +130,32 @@ func genC24(t *Tape) *Plan {
 	cfg.WritesPending = []int32{0, 1, 2}[t.Draw("c24.wp", 3)]
 	g.Connect(0)
 	g.Subscribe(0)
+	if t.Draw("c24.shape", 4) == 0 && cfg.TopicAliasMax > 0 {
+		// rebinding skeleton: a publisher binds an alias, binds it again to another topic, then uses the alias alone
+		first := len(g.plan.Ops)
+		for i := range g.plan.Ops {
+			if g.plan.Ops[i].Kind == "subscribe" && g.plan.Ops[i].Pkt != nil && len(g.plan.Ops[i].Pkt.Filters) > 0 {
+				g.plan.Ops[i].Pkt.Filters[0].Filter = "#"
+			}
+		}
+		slot := 1
+		ci := g.Connect(slot)
+		g.plan.Ops[ci].Pkt.ProtoVer = 5
+		g.slots[slot].ver = 5
+		alias := uint32(1 + t.Draw("c24.rebindalias", int(cfg.TopicAliasMax)))
+		topics := []string{"t", "u", "v", "w"}
+		a := t.Draw("c24.topicA", len(topics))
+		b := (a + 1 + t.Draw("c24.topicB", len(topics)-1)) % len(topics)
+		for _, tp := range []string{topics[a], topics[b], ""} {
+			i := g.Publish(slot)
+			p := g.plan.Ops[i].Pkt
+			p.Topic = tp
+			p.Props = append(p.Props, refcodec.Prop{ID: refcodec.PTopicAlias, Int: alias})
+		}
+		for i := first; i < len(g.plan.Ops); i++ {
+			g.plan.Ops[i].Concurrent = false
+		}
+	}
 	n := 8 + t.Draw("c24.len", 14)
 	for len(g.plan.Ops) < n {
 		if t.Draw("c24.inbound", 3) == 0 {
@@ -264,6 +290,18 @@ func checkC24(r *Result) []Violation {
 			}
 			if p.Topic != "" {
 				bound[ap.Int] = p.Topic
+			}
+			// a valid alias use resolves to the topic last bound to the alias on this connection
+			want := bound[ap.Int]
+			for _, tp := range routedTopic {
+				if tp != "" && tp != "(published)" && tp != want {
+					how := "first-binding"
+					if p.Topic == "" {
+						how = "alias-only"
+					}
+					out = append(out, viol("C24", "alias-resolved-to-wrong-topic", fmt.Sprintf("conn %d: PUBLISH %q with topic alias %d (last bound to %q on this connection) was routed to %q", c.Idx, payloadIDOf(p.Payload), ap.Int, want, tp), s.Seq, "how", how))
+					break
+				}
 			}
 		}
 	}
